@@ -31,7 +31,12 @@ def run(ctx):
     ctx.decide("disambiguation def-use: clash set = intersection under the "
                "filter, fresh names from a generator seeded with the union, "
                "substitution applied through map_expressions incl. lhs")
-    ctx.decline("the transitive-reduction output of the dependency-graph export")
+    ctx.decide("dependency-graph export: the transitive closure is a fixed-point "
+               "iteration whose change flag is reset once per sweep, only ever "
+               "raised inside the sweep, and ends the loop only when a whole "
+               "sweep changed nothing")
+    ctx.decline("that the drawn edges are exactly the transitive reduction "
+                "(beyond the fixed-point structure of the closure)")
     ctx.assume("pytools.UniqueNameGenerator returns names outside its seed set "
                "and never repeats one")
 
@@ -42,6 +47,7 @@ def run(ctx):
     _check_fuse(ctx, model)
     _check_disambiguate(ctx, model)
     _check_used_identifiers(ctx, model)
+    _check_closure_loop(ctx, model)
 
 
 # ---------------------------------------------------------------------------
@@ -520,3 +526,68 @@ def _or_terms(v):
             out += _or_terms(a)
         return out
     return [v]
+
+
+def _check_closure_loop(ctx, model):
+    UT = "pymbolic.imperative.utils"
+    m, fn = model.func(f"{UT}:get_dot_dependency_graph")
+    loc = m.loc(fn)
+    loops = [w for w in ast.walk(fn) if isinstance(w, ast.While)
+             and isinstance(w.test, ast.Constant) and w.test.value is True]
+    if len(loops) != 1:
+        raise AnalysisError("get_dot_dependency_graph: fixed-point loop not found")
+    w = loops[0]
+    # the flag: the name tested by 'if not <flag>: break'
+    flag = None
+    for st in w.body:
+        if isinstance(st, ast.If) and st.body and isinstance(st.body[0], ast.Break) \
+                and isinstance(st.test, ast.UnaryOp) and isinstance(
+                st.test.op, ast.Not) and isinstance(st.test.operand, ast.Name):
+            flag = st.test.operand.id
+            exit_idx = w.body.index(st)
+    ok_exit = flag is not None and exit_idx == len(w.body) - 1
+    ctx.ob("P/closure/exit-only-when-unchanged", ok_exit, loc,
+           "the loop ends only after a sweep that changed nothing" if ok_exit else
+           "the closure loop does not end with 'if not <changed>: break' as its "
+           "last statement")
+    if flag is None:
+        return
+    first = w.body[0]
+    ok_reset = isinstance(first, ast.Assign) and ast.unparse(first.targets[0]) == \
+        flag and isinstance(first.value, ast.Constant) and first.value.value is False
+    ctx.ob("P/closure/flag-reset-per-sweep", ok_reset, loc,
+           "the change flag is reset at the start of every sweep" if ok_reset else
+           "the change flag is not reset to False at the start of each sweep")
+    bad = []
+    n_raise = 0
+    for st in ast.walk(w):
+        if st is first:
+            continue
+        if isinstance(st, ast.Assign) and any(
+                isinstance(t, ast.Name) and t.id == flag for t in st.targets):
+            v = st.value
+            mono = (isinstance(v, ast.Constant) and v.value is True) or (
+                isinstance(v, ast.BoolOp) and isinstance(v.op, ast.Or) and any(
+                    isinstance(x, ast.Name) and x.id == flag for x in v.values))
+            if mono:
+                n_raise += 1
+            else:
+                bad.append(ast.unparse(st))
+        if isinstance(st, ast.AugAssign) and isinstance(st.target, ast.Name) \
+                and st.target.id == flag:
+            if isinstance(st.op, ast.BitOr):
+                n_raise += 1
+            else:
+                bad.append(ast.unparse(st))
+    ctx.ob("P/closure/flag-monotone", not bad and n_raise >= 1, loc,
+           "inside a sweep the flag is only ever raised" if not bad and n_raise
+           else f"inside the sweep the change flag is overwritten ({bad}): a later "
+           "pair that adds nothing hides an earlier change, the fixed point stops "
+           "early and the closure stays incomplete (redundant edges are drawn)")
+    # a new edge is added exactly when it is missing
+    adds = [c for c in ast.walk(w) if (isinstance(c, ast.Call) and isinstance(
+        c.func, ast.Attribute) and c.func.attr in ("add", "update")) or (
+        isinstance(c, ast.AugAssign) and isinstance(c.op, ast.BitOr)
+        and not (isinstance(c.target, ast.Name) and c.target.id == flag))]
+    ctx.ob("P/closure/adds-edges", bool(adds), loc,
+           "the sweep adds the discovered edges")
